@@ -88,11 +88,20 @@ ReachBad(id) == IF Case(c).check # "rd" THEN {}
 NextDef(id) == IF Case(c).check # "rd" THEN lastdef
                ELSE [v \in (DOMAIN lastdef) \cup Defs(RowOf(id)) |-> IF v \in Defs(RowOf(id)) THEN id ELSE lastdef[v]]
 
+(* every node of the method's CFG is a statement of the method: an edge from or to a statement of another method (state that leaked from the
+   analysis of a method analysed earlier) gives the method a wrong entry or a foreign successor.  Judged once, when the first statement runs. *)
+OwnIds == {Case(c).rows[j].id : j \in 1..Len(Case(c).rows)}
+Foreign == {e \in ToSet(Case(c).cfg) : (e[1] > 0 /\ e[1] \notin OwnIds) \/ (e[2] > 0 /\ e[2] \notin OwnIds)}
 Exec(id, k2) ==
   /\ pc' = id /\ kont' = k2 /\ steps' = steps + 1 /\ UNCHANGED <<c, done>>
   /\ lastdef' = NextDef(id)
-  /\ bad' = IF Case(c).check = "cfg" /\ ~EdgeOK(pc, id) THEN "edge_missing"
+  /\ bad' = IF Case(c).check = "cfg" /\ pc = 0 /\ Foreign # {} THEN "cfg_contains_statement_of_another_method"
+            ELSE IF Case(c).check = "cfg" /\ ~EdgeOK(pc, id) THEN "edge_missing"
             ELSE IF ReachBad(id) # {} THEN "reaching_definition_missing" ELSE ""
+  /\ (bad' = "cfg_contains_statement_of_another_method" =>
+        LET e == CHOOSE x \in Foreign : TRUE IN
+        PrintT("@@" \o ToJson([case |-> Case(c).name, clause |-> bad', src |-> e[1], dst |-> e[2], ctx |-> "top",
+                               srcop |-> "foreign", dstop |-> IF id > 0 THEN RowOf(id).op ELSE "exit"])))
   /\ (bad' = "edge_missing" =>
         PrintT("@@" \o ToJson([case |-> Case(c).name, clause |-> bad', src |-> pc, dst |-> id, ctx |-> Ctx,
                                srcop |-> IF pc > 0 THEN RowOf(pc).op ELSE "entry",
